@@ -5,7 +5,9 @@
 import json, os, subprocess, sys, glob, xml.etree.ElementTree as ET
 from concurrent.futures import ThreadPoolExecutor
 
-BASE = json.load(open('/root/.vp/BASELINE.json'))['stable_pass']
+STABLE = json.load(open('/root/.vp/BASELINE.json'))['stable_pass']
+BASE = os.environ.get('MUT_BASE', '/tmp/mut')
+WT_PREFIX = os.environ.get('MUT_WT', '/tmp/wt/')
 
 
 def sh(cmd, cwd, env=None, timeout=1800):
@@ -15,12 +17,12 @@ def sh(cmd, cwd, env=None, timeout=1800):
 
 
 def one(pid):
-    wt = '/tmp/wt/' + pid
+    wt = WT_PREFIX + pid[1:] if WT_PREFIX.endswith('R') else '/tmp/wt/' + pid
     out = []
     sh('git checkout -- . && git clean -fdq', wt)
-    for diff in sorted(glob.glob('/tmp/mut/%s/m*.diff' % pid)):
+    for diff in sorted(glob.glob(BASE + '/%s/m*.diff' % pid)):
         k = os.path.basename(diff)[1:-5]
-        demo = '/tmp/mut/%s/demo_m%s.py' % (pid, k)
+        demo = BASE + '/%s/demo_m%s.py' % (pid, k)
         env = {'PYTHONPATH': wt, 'FLOWCAL_ROOT': wt, 'MPLBACKEND': 'Agg'}
         res = {'property': pid, 'mutant': 'm' + k}
         rc0, o0 = sh('/venv/bin/python %s' % demo, wt, env)
@@ -28,7 +30,7 @@ def one(pid):
         rc, o = sh('git apply %s' % diff, wt)
         res['applies'] = rc == 0
         if rc == 0:
-            junit = '/tmp/mut/%s/junit_m%s.xml' % (pid, k)
+            junit = BASE + '/%s/junit_m%s.xml' % (pid, k)
             sh('/venv/bin/python -m pytest -q -p no:cacheprovider -n 4 --timeout=900 --junitxml=%s' % junit, wt)
             ok = set()
             try:
@@ -37,7 +39,7 @@ def one(pid):
                         ok.add(tc.get('classname') + '::' + tc.get('name'))
             except Exception as e:
                 res['junit_error'] = str(e)
-            res['baseline_failing'] = sorted(set(BASE) - ok)
+            res['baseline_failing'] = sorted(set(STABLE) - ok)
             rc1, o1 = sh('/venv/bin/python %s' % demo, wt, env)
             res['demo_mutant_exit'] = rc1
             res['demo_mutant_tail'] = o1.strip().split('\n')[-3:]
@@ -45,7 +47,7 @@ def one(pid):
         sh('git checkout -- . && git clean -fdq', wt)
         res['confirmed'] = bool(res.get('applies') and rc0 == 0 and res.get('demo_mutant_exit') not in (0, None)
                                 and not res.get('baseline_failing'))
-        json.dump(res, open('/tmp/mut/%s/confirm_m%s.json' % (pid, k), 'w'), indent=1)
+        json.dump(res, open(BASE + '/%s/confirm_m%s.json' % (pid, k), 'w'), indent=1)
         out.append((pid, 'm' + k, res['confirmed'], rc0, res.get('demo_mutant_exit'), len(res.get('baseline_failing', []))))
     return out
 
